@@ -41,6 +41,7 @@ FIELDS = {
     "priority": [0, 1],
     "myopt": [None, "v1", "v2"],
     "env": [None, {"K": "1"}, {"K": "2"}, {"K": "1", "L": "x"}],
+    "stream": [None, "QueueStream", "StdoutStream"],
 }
 
 
@@ -56,6 +57,9 @@ def render(model):
                   "priority = %d" % wm["priority"]]
         if wm.get("myopt") is not None:
             lines.append("myopt = %s" % wm["myopt"])
+        if wm.get("stream") is not None:
+            lines.append("stdout_stream.class = %s" % wm["stream"])
+            lines.append("stderr_stream.class = %s" % wm["stream"])
         lines.append("")
         if wm.get("env"):
             lines.append("[env:%s]" % name)
@@ -249,7 +253,9 @@ def _strategy():
             "graceful_timeout": st.sampled_from(FIELDS["graceful_timeout"]),
             "priority": st.sampled_from(FIELDS["priority"]),
             "myopt": st.sampled_from(FIELDS["myopt"]),
-            "env": st.sampled_from(FIELDS["env"])})
+            "env": st.sampled_from(FIELDS["env"]),
+            "stream": st.sampled_from([None, None, "QueueStream",
+                                       "StdoutStream"])})
     names = ['w1', 'w2', 'w3']
 
     @st.composite
@@ -266,7 +272,8 @@ def _strategy():
             if kind == 'set':
                 field = draw(st.sampled_from(
                     ['numprocesses', 'numprocesses', 'numprocesses', 'cmd',
-                     'graceful_timeout', 'priority', 'myopt', 'env']))
+                     'graceful_timeout', 'priority', 'myopt', 'env',
+                     'stream']))
                 edits.append(['set', draw(st.sampled_from(names)), field,
                               draw(st.sampled_from(FIELDS[field]))])
             elif kind == 'add':
